@@ -73,6 +73,13 @@ pub mod fnv1a64 {
         hash_sdm_type(state, schema).to_le_bytes()
     }
 
+    /// Verification hook (compiled only with `--cfg postcard_verif`): the byte-update kernel,
+    /// callable from an arbitrary state.
+    #[cfg(postcard_verif)]
+    pub fn verif_hash_update(state: u64, bytes: &[u8]) -> u64 {
+        hash_update(state, bytes)
+    }
+
     pub(crate) const fn hash_update(mut state: u64, bytes: &[u8]) -> u64 {
         let mut idx = 0;
         while idx < bytes.len() {
